@@ -594,6 +594,150 @@ func (c *Ctx) c17Lua() {
 		})
 	}
 	r.Count("SetContext sites in the Lua host", nCtx)
+	// what was read out of one Lua state stays with that state: the handler table (and the Lua
+	// functions in it) obtained from a pooled state must not be kept anywhere that outlives the
+	// call — another session would run the first state's closures, sharing its globals and
+	// upvalues with every concurrent session
+	r.Rule("C17/LUA/state-bound", "a value obtained from an *LState by a function of the Lua host (the handler table from getInbucket) is not stored in a package variable, in a field of a long-lived object (Host, statePool) or in a sync/atomic container")
+	{
+		isLState := func(t types.Type) bool {
+			pt, ok := t.(*types.Pointer)
+			if !ok {
+				return false
+			}
+			n, ok := pt.Elem().(*types.Named)
+			return ok && n.Obj().Name() == "LState" && n.Obj().Pkg() != nil && strings.HasSuffix(n.Obj().Pkg().Path(), "gopher-lua")
+		}
+		// producers: functions of the package with an *LState parameter that return a pointer to
+		// a package type (the table of handlers) taken from that state
+		var sources []ssa.Value
+		for _, fn := range fns {
+			fn := fn
+			eng.EachInstr(fn, func(in ssa.Instruction) {
+				call, ok := in.(*ssa.Call)
+				if !ok {
+					return
+				}
+				g := eng.StaticCallee(call.Common())
+				if g == nil || eng.FuncPkgPath(g) != eng.Mod+"/"+luaRel || g.Signature.Results().Len() == 0 {
+					return
+				}
+				takes := false
+				for _, prm := range g.Params {
+					if isLState(prm.Type()) {
+						takes = true
+					}
+				}
+				rt, isPtr := g.Signature.Results().At(0).Type().(*types.Pointer)
+				if !takes || !isPtr {
+					return
+				}
+				if n, ok := rt.Elem().(*types.Named); !ok || n.Obj().Pkg() == nil || n.Obj().Pkg().Path() != eng.Mod+"/"+luaRel || n.Obj().Name() != "Inbucket" {
+					return
+				}
+				if g.Signature.Results().Len() == 1 {
+					sources = append(sources, call)
+				} else if e := extractOf(call, 0); e != nil {
+					sources = append(sources, e)
+				}
+			})
+		}
+		tainted := map[ssa.Value]bool{}
+		work := append([]ssa.Value(nil), sources...)
+		for _, v := range work {
+			tainted[v] = true
+		}
+		var probs []string
+		longLived := func(addr ssa.Value) string {
+			for i := 0; i < 6; i++ {
+				switch x := addr.(type) {
+				case *ssa.Global:
+					return "package variable " + x.Name()
+				case *ssa.FieldAddr:
+					if _, fresh := x.X.(*ssa.Alloc); fresh {
+						return ""
+					}
+					if pt, ok := x.X.Type().(*types.Pointer); ok {
+						if n, ok := pt.Elem().(*types.Named); ok && n.Obj().Pkg() != nil && n.Obj().Pkg().Path() == eng.Mod+"/"+luaRel {
+							switch n.Obj().Name() {
+							case "Host", "statePool":
+								return "field " + eng.FieldOfAddr(x).Name() + " of " + n.Obj().Name()
+							}
+						}
+					}
+					addr = x.X
+					continue
+				case *ssa.UnOp:
+					addr = x.X
+					continue
+				}
+				break
+			}
+			return ""
+		}
+		for len(work) > 0 {
+			v := work[len(work)-1]
+			work = work[:len(work)-1]
+			if v.Referrers() == nil {
+				continue
+			}
+			add := func(nv ssa.Value) {
+				if !tainted[nv] {
+					tainted[nv] = true
+					work = append(work, nv)
+				}
+			}
+			for _, ref := range *v.Referrers() {
+				switch x := ref.(type) {
+				case *ssa.Phi, *ssa.Extract, *ssa.ChangeInterface, *ssa.MakeInterface:
+					add(ref.(ssa.Value))
+				case *ssa.Return:
+					for i, rv := range x.Results {
+						if rv != v {
+							continue
+						}
+						for _, cs := range p.StaticCallSites(x.Parent()) {
+							cv, ok := cs.Instr.(*ssa.Call)
+							if !ok {
+								continue
+							}
+							if len(x.Results) == 1 {
+								add(cv)
+							} else if e := extractOf(cv, i); e != nil {
+								add(e)
+							}
+						}
+					}
+				case *ssa.Store:
+					if x.Val == v {
+						if where := longLived(x.Addr); where != "" {
+							probs = append(probs, "stored in "+where+" at "+p.InstrPos(x))
+						}
+					}
+				case *ssa.Call:
+					name := eng.CalleeName(x.Common())
+					if strings.Contains(name, "sync/atomic.") || strings.Contains(name, "sync.Map)") || strings.Contains(name, "sync.Pool)") {
+						for _, a := range x.Call.Args[1:] {
+							if a == v {
+								where := longLived(x.Call.Args[0])
+								if where == "" {
+									where = "a " + name + " container"
+								}
+								probs = append(probs, "kept in "+where+" at "+p.InstrPos(x))
+							}
+						}
+					}
+				}
+			}
+		}
+		sort.Strings(probs)
+		if len(probs) > 0 {
+			r.Bad("C17/LUA/state-bound", "handler-table", "", "the handler table read from one pooled Lua state is %s: later calls on other states run this state's functions, so script-level variables are shared, unsynchronised, between concurrent sessions (one session's hook sees or overwrites another's data)", strings.Join(probs, "; "))
+		} else {
+			r.Ok("C17/LUA/state-bound", "handler-table", "", "%d reads of the handler table from a Lua state; none is kept beyond the call", len(sources))
+		}
+		r.Floor("C17/LUA/state-bound", "reads of the handler table from a Lua state", len(sources), 1)
+	}
 	// unwrap helpers
 	sm := c.stores()
 	if !sm.ok {
